@@ -11,6 +11,7 @@ import ast
 from .. import cfg as C
 from .. import norm as N
 from . import common as K
+from .sched_model import PlacementLoop
 
 EXPLANATION = """
 Static typestate / guard analysis of the identity mechanism.
@@ -44,142 +45,11 @@ MIN_PER_RULE = {'C05.1': 4, 'C05.2': 5, 'C05.3': 4, 'C05.4': 1, 'C05.5': 1,
                 'C05.6': 2}
 
 
-def _placement_loop(ctx):
-    cell = ctx.index.get_class(K.SCHED, 'Cell')
-    func = K.one(K.methods_calling(cell, 'acquire_identity'),
-                 'Cell method that calls acquire_identity()')
-    graph = ctx.cfg(func)
-    sites = K.nodes_calling(graph, lambda c: K.is_meth(c, 'acquire_identity'))
-    node, call = sites[0]
-    var = N.txt(K.recv(call))
-    head = K.enclosing_for(graph, node, var)
-    ctx.require(head is not None,
-                'for-loop over the instance that calls acquire_identity')
-    return func, graph, head, var
-
-
 def _typestate(ctx):
-    func, graph, head, var = _placement_loop(ctx)
-    nz = N.Normaliser()
-    server_txt = '%s.server' % var
-
-    def releases(call):
-        if K.is_meth(call, 'release_identity') and \
-                N.txt(K.recv(call)) == var:
-            return True
-        callee = K.resolve_call(ctx, func, call)
-        if callee is not None and callee is not func:
-            param = K.call_passes_as(call, callee, var)
-            if param and K.callee_always_calls(ctx, callee, param,
-                                               'release_identity'):
-                return True
-        return False
-
-    def places(call):
-        """<x>.put(var) / <x>.restore(var, ...)"""
-        return K.is_meth(call, 'put', 'restore') and call.args and \
-            N.txt(call.args[0]) == var
-
-    def removes(call):
-        return K.is_meth(call, 'remove', 'remove_app') and call.args and \
-            N.txt(call.args[0]) in ('%s.name' % var,)
-
-    # local names bound exactly once to the result of a call on the
-    # instance (acquired = app.acquire_identity(); ok = server.put(app))
-    aliases = {}
-    counts = {}
-    for sub in K.walk_no_nested(func.node):
-        if isinstance(sub, ast.Assign) and len(sub.targets) == 1 and \
-                isinstance(sub.targets[0], ast.Name):
-            counts[sub.targets[0].id] = counts.get(sub.targets[0].id, 0) + 1
-            if isinstance(sub.value, ast.Call):
-                aliases[sub.targets[0].id] = sub.value
-    aliases = {k: v for k, v in aliases.items() if counts.get(k) == 1}
-
-    def step(edge, state):
-        placed, ident = state
-        node = edge.src
-        if node is head and edge.kind == 'iter':
-            return [('?', 'held')]
-        if edge.kind == 'exc':
-            return []          # exceptional exits abort the whole cycle
-        if edge.dst is head:
-            pass
-        if node.kind == 'test':
-            atom = nz.atom(node.ast)
-            truth = edge.kind == 'true'
-            key = atom.key
-            # truthiness / None tests on <var>.server
-            if key[0] == 'truth' and key[1] == server_txt:
-                val = truth == key[2]
-                if placed == ('N' if val else 'Y'):
-                    return []          # infeasible branch
-                placed = 'Y' if val else 'N'
-            elif key[0] == 'is' and key[1] == server_txt and \
-                    key[2] == 'None':
-                is_none = truth == key[3]
-                if placed == ('Y' if is_none else 'N'):
-                    return []
-                placed = 'N' if is_none else 'Y'
-            elif key[0] == 'truth' and key[1] in aliases and \
-                    isinstance(node.ast, ast.Name):
-                call = aliases[key[1]]
-                val = truth == key[2]
-                if K.is_meth(call, 'acquire_identity') and \
-                        N.txt(K.recv(call)) == var:
-                    ident = 'held' if val else 'clean'
-                elif places(call) and val:
-                    placed = 'Y'
-            else:
-                for call in K.calls(node.ast):
-                    if K.is_meth(call, 'acquire_identity') and \
-                            N.txt(K.recv(call)) == var and \
-                            node.ast is call:
-                        ident = 'held' if truth else 'clean'
-                    elif places(call) and node.ast is call:
-                        if truth:
-                            placed = 'Y'
-                    elif places(call):
-                        placed = '?'
-                    elif removes(call):
-                        placed = 'N'
-                    elif releases(call):
-                        ident = 'clean'
-            return [(placed, ident)]
-        if node.kind in ('stmt', 'return'):
-            for call in K.calls(node):
-                if removes(call):
-                    placed = 'N'
-                elif releases(call):
-                    ident = 'clean'
-                elif places(call):
-                    tgt = node.ast.targets[0] if isinstance(
-                        node.ast, ast.Assign) and len(
-                            node.ast.targets) == 1 else None
-                    if isinstance(tgt, ast.Name) and tgt.id in aliases:
-                        placed = '?' if placed != 'Y' else placed
-                    else:
-                        # unconditional restore: trusted to succeed
-                        # (ASSUMPTIONS)
-                        placed = 'Y'
-                elif K.is_meth(call, 'acquire_identity') and \
-                        N.txt(K.recv(call)) == var:
-                    ident = 'held'
-            for tgt, val, kind in K.assigns_attr(node):
-                if N.txt(tgt) == '%s.identity' % var and kind == 'assign' \
-                        and isinstance(val, ast.Constant) and \
-                        val.value is None:
-                    ident = 'clean'
-                if N.txt(tgt) == server_txt and kind == 'assign':
-                    if isinstance(val, ast.Constant) and val.value is None:
-                        placed = 'N'
-                    else:
-                        placed = '?'
-            return [(placed, ident)]
-        return [(placed, ident)]
-
-    # run the product from the loop header
-    reached = C.explore(graph, [('?', 'held')], step, start=head)
+    loop = PlacementLoop(ctx)
+    func, graph, head = loop.func, loop.graph, loop.head
+    step = loop.step
+    reached = loop.reached
     backs = K.loop_back_edges(head)
     ctx.require(len(backs) >= 4, 'ends of an iteration of the placement '
                                  'loop (found %d)' % len(backs))
@@ -207,7 +77,7 @@ def _typestate(ctx):
                      (bad[1][0],),
                      path=K.describe(path), construct=construct,
                      evals=max(1, len(states)))
-    return func, graph, head, var
+    return loop
 
 
 def _removal_pairing(ctx):
